@@ -49,7 +49,7 @@ FUNCTIONS = {"col_sum": col_sum, "col_first_two": col_first_two, "np.log1p": np.
 SKLEARN = {c.__name__: c for c in [KMeans, PCA, DummyRegressor, LinearRegression, LogisticRegression, Ridge, GaussianNB,
                                    KBinsDiscretizer, MinMaxScaler, StandardScaler, DecisionTreeClassifier, DecisionTreeRegressor, Pipeline, LinearSVC]}
 HARNESS = {c.__name__: c for c in [H.RecordingRegressor, H.RecordingClassifier, H.CentroidClassifier, H.FailingRegressor,
-                                   H.FailingClassifier, H.FailingTransformer, H.FakeTSNE, H.KwargsRegressor, H.KwargsClassifier, H.SkewedClassifier]}
+                                   H.FailingClassifier, H.FailingTransformer, H.FakeTSNE, H.KwargsRegressor, H.KwargsClassifier, H.SkewedClassifier, H.DomainClassifier]}
 
 _MODS = {
     "ApproximateNMFPredictor": "mlmodel.anmf_predictor", "CategoriesToIntegers": "mlmodel.categories_to_integers",
@@ -493,7 +493,10 @@ class _PC(_PR):
     methods = ("predict", "predict_proba", "decision_function", "transform_bins")
 
     def spec(self, draw):
-        return dict(cls=self.name, params=dict(binner=self._binner(draw, clf=True), estimator=s_classifier(draw, recording=True, warm=True),
+        # one local model in five refuses to extrapolate (raises outside its own training box): a bucket's model then has a narrower
+        # domain than the fallback trained on everything
+        inner = s_classifier(draw, recording=True, warm=True) if draw(st.integers(0, 4)) else dict(cls="DomainClassifier", params=dict(scale=draw(st.sampled_from([1.0, 0.5]))))
+        return dict(cls=self.name, params=dict(binner=self._binner(draw, clf=True), estimator=inner,
                                                n_jobs=draw(st.sampled_from([None, 1, 2])), random_state=draw(st.one_of(st.none(), st.integers(0, 9)))))
 
     def available(self, est):
